@@ -20,6 +20,8 @@ import struct
 getcontext().prec = 160
 
 U = {"f64": F(1, 2 ** 53), "f32": F(1, 2 ** 24)}
+# smallest positive (subnormal) number: the absolute rounding unit once a quantity underflows
+UF = {"f64": F(1, 2 ** 1074), "f32": F(1, 2 ** 149)}
 
 
 def unit(ty, N):
@@ -94,14 +96,17 @@ def line_exact(x, y, q):
     i = bracket(x, q)
     x1, x2, y1, y2, qq = F(x[i]), F(x[i + 1]), F(y[i]), F(y[i + 1]), F(q)
     t = (qq - x1) / (x2 - x1)
-    return y1 + (y2 - y1) * t, max(abs(y1), abs(y2)), t
+    return y1 + (y2 - y1) * t, max(abs(y1), abs(y2)), t, abs(qq - x1)
 
 
-def line_tol(ty, Y, t, ulps=16):
+def line_tol(ty, Y, t, dq=0, ulps=16):
+    """dq = |q - x1|: when the slope (y2-y1)/(x2-x1) underflows it is only known to one
+    subnormal unit, and that absolute error is multiplied by dq (gradual underflow is ordinary
+    rounding, not a defect)"""
     amp = 1
     if t < 0 or t > 1:
         amp = 1 + 2 * max(abs(t), abs(1 - t))
-    return ulps * 2 * U[ty] * Y * amp
+    return ulps * 2 * U[ty] * Y * amp + ulps * UF[ty] * (1 + dq)
 
 
 # --------------------------------------------------------------------------- bilinear
@@ -117,13 +122,14 @@ def bilinear_exact(x, y, z, qx, qy):
     v = (z11 * (1 - tx) * (1 - ty_) + z21 * tx * (1 - ty_)
          + z12 * (1 - tx) * ty_ + z22 * tx * ty_)
     Z = max(abs(z11), abs(z12), abs(z21), abs(z22))
-    return v, Z, tx, ty_
+    return v, Z, tx, ty_, abs(F(qx) - x1), abs(F(qy) - y1)
 
 
-def bilinear_tol(ty, Z, tx, ty_, ulps=64):
+def bilinear_tol(ty, Z, tx, ty_, dqx=0, dqy=0, ulps=64):
     ax = 1 if 0 <= tx <= 1 else 1 + 2 * max(abs(tx), abs(1 - tx))
     ay = 1 if 0 <= ty_ <= 1 else 1 + 2 * max(abs(ty_), abs(1 - ty_))
-    return ulps * 2 * U[ty] * Z * ax * ay
+    # underflowing slopes: one subnormal unit times the distance from the lower knot (see line_tol)
+    return ulps * 2 * U[ty] * Z * ax * ay + ulps * UF[ty] * (1 + dqx * ay + dqy)
 
 
 # ----------------------------------------------------------------------------- spline
